@@ -29,6 +29,8 @@ CORPORA.update({
     'tagged-long': [('tokenized', 'abc/N a/X abc/V a/Y')],
     # every tagged token has exactly one tag: the tag models carry no classifier at all (no tag n-gram weights), while the boundary model has type n-grams
     'tagged-unambiguous': [('tokenized', 'ab/N c/X ab/N'), ('tokenized', 'c/X a b')],
+    # one surface seen with different numbers of tag slots, the extra slot ambiguous: the second-layer classifier of 'ab' meets an example that has no second slot
+    'tag-slots-differ': [('tokenized', 'ab/N/x c ab/V/y'), ('tokenized', 'c ab/N')],
 })
 CFGS_QUICK = [(0, 0, 0, 0), (1, 1, 1, 1), (2, 2, 2, 2), (1, 3, 1, 3), (1, 1, 2, 2), (2, 2, 1, 1), (0, 2, 2, 0), (2, 0, 0, 2), (3, 1, 1, 3), (1, 2, 2, 1), (1, 3, 2, 1)]
 DICTS = {'none': ([], 4), 'a-ab': (['a', 'ab'], 1), 'dup': (['a', 'a'], 2)}
